@@ -372,7 +372,8 @@ theorem sessUsage_of_find {s : State} {supi : Bytes} {ue : Ue} (h : findUe s.ues
     sessUsage s supi sid = sessUsageRecs ue.records sid := by
   unfold sessUsage; rw [h]
 
-theorem create_acc (s : State) (r : Req) (nf : Bytes) (hnf : r.nf = some nf) (hp : supiAccepted r.supi = true) :
+theorem create_acc (s : State) (r : Req) (nf : Bytes) (hnf : r.nf = some nf) (hp : supiAccepted r.supi = true)
+    (hb : r.bad = false) :
     ∃ (ue' : Ue) (rec1 : Record) (key : Bytes),
       (create s r).2.status = 201 ∧ (create s r).2.loc = some key ∧ (create s r).1.ues = putUe s.ues ue' ∧
       ue'.supi = (ueOr s r).supi ∧ ue'.records = (ueOr s r).records ++ [rec1] ∧
@@ -380,7 +381,7 @@ theorem create_acc (s : State) (r : Req) (nf : Bytes) (hnf : r.nf = some nf) (hp
       ((key = [] ∧ rec1.sid = none ∧ (create s r).1.sessionSeq = s.sessionSeq) ∨
        (key = sessionId r.supi nf s.sessionSeq ∧ rec1.sid = some key ∧ (create s r).1.sessionSeq = s.sessionSeq + 1)) := by
   unfold create ueOr
-  simp only [hnf, hp, not_true_eq_false, if_false]
+  simp only [hnf, hp, hb, not_true_eq_false, if_false, Bool.false_eq_true]
   by_cases h1 : r.one = true
   · simp only [h1, if_true]
     exact ⟨_, _, _, trivial, rfl, rfl, rfl, rfl, rfl, by simp [appendUsage], Or.inl ⟨rfl, rfl, trivial⟩⟩
@@ -446,7 +447,27 @@ theorem sess_step (guard : SplitGuard) (s : State) (op : Op) (supi sid : Bytes) 
     simp only [step, contribSess]
     by_cases hacc : ∃ nf, r.nf = some nf ∧ supiAccepted r.supi = true
     · obtain ⟨nf, hnf, hp⟩ := hacc
-      obtain ⟨ue', rec1, key, hst, hloc, hues, hsup', hrecs, hcdr, hru, hkey⟩ := create_acc s r nf hnf hp
+      by_cases hb : r.bad = true
+      · -- refused by OpenCDR: the context is stored (records and session map as they were), a number may be used up
+        have hbad := create_bad s r nf hnf hp hb
+        have hcr0 : CrInv s.sessionSeq (ueOr s r).cdr (ueOr s r).records := by
+          unfold ueOr; cases hf : findUe s.ues r.supi with
+          | none => exact CrInv.empty _
+          | some u => exact hinv u (mem_of_findUe hf)
+        have hprev0 : sessUsage s r.supi sid = sessUsageRecs (ueOr s r).records sid := by
+          unfold sessUsage ueOr; cases hf : findUe s.ues r.supi with
+          | none => simp [sessUsageRecs]
+          | some u => rfl
+        rw [hbad]
+        have hn0 : s.sessionSeq ≤ (if r.one = true then s.sessionSeq else s.sessionSeq + 1) := by split <;> omega
+        refine ⟨?_, sessInv_put (ue' := { ueOr s r with notifyUri := r.uri }) hinv hn0 (hcr0.mono hn0) rfl⟩
+        rw [sessUsage_put (ue' := { ueOr s r with notifyUri := r.uri }) rfl]
+        simp only [ueOr_supi]
+        by_cases e : supi = r.supi
+        · subst e; simp [hprev0]
+        · simp [e]
+      have hb' : r.bad = false := by cases h : r.bad <;> simp_all
+      obtain ⟨ue', rec1, key, hst, hloc, hues, hsup', hrecs, hcdr, hru, hkey⟩ := create_acc s r nf hnf hp hb'
       have hsupi : (ueOr s r).supi = r.supi := by
         unfold ueOr; cases hf : findUe s.ues r.supi with
         | none => rfl
